@@ -148,3 +148,115 @@ Proof.
     rewrite H in A. simpl in A. discriminate.
   - apply nth_error_None in E. inversion H. auto.
 Qed.
+
+(* ------------------------------------------------------------------------------------------- *)
+(* contracts: 1 <= consumed <= len(lines) - start (no hypothesis on linefns or on the sub-calls)  *)
+(* ------------------------------------------------------------------------------------------- *)
+Section Contracts.
+Variable fixed : bool.
+Variable lf : linefns.
+Variable rec_cond rec_loop : list string -> nat -> pres (token * nat).
+
+Lemma cond_go_bounds : forall lines start rest i skip st t n,
+  start <= i ->
+  cond_go fixed lf rec_cond rec_loop lines start rest i skip st = POk (t, n) ->
+  (exists brs, t = TCond brs) /\ i - start < n /\ n <= i + length rest - start.
+Proof.
+  induction rest as [|line rest IH]; intros i skip st t n Hi H; cbn [cond_go] in H; [discriminate|].
+  destruct skip as [|k].
+  - destruct (cond_step fixed lf rec_cond rec_loop lines start i line st) as [[st' [|k]|brs]|d|e|];
+      try discriminate.
+    + apply IH in H; [|lia]. cbn [length]. destruct H as [H1 H2]. split; auto. lia.
+    + assert (E1 : t = TCond brs) by congruence. assert (E2 : n = S i - start) by congruence.
+      subst. split; [eauto|]. cbn [length]. lia.
+  - apply IH in H; [|lia]. cbn [length]. destruct H as [H1 H2]. split; auto. lia.
+Qed.
+
+Lemma cond_body_bounds : forall lines start t n,
+  cond_body fixed lf rec_cond rec_loop lines start = POk (t, n) ->
+  (exists brs, t = TCond brs) /\ 1 <= n /\ n <= length lines - start.
+Proof.
+  intros lines start t n H. unfold cond_body in H. apply cond_go_bounds in H; [|lia].
+  rewrite skipn_length in H. destruct H as [H1 H2]. split; auto.
+  destruct (le_lt_dec (length lines) start); lia.
+Qed.
+
+Lemma loop_collect_bounds : forall start rest i started depth raw var coll found i' raw' v' c',
+  loop_collect start rest i started depth raw var coll = POk (found, i', raw', v', c') ->
+  length raw' <= length raw + length rest /\
+  (found = true -> i < i' /\ i' <= i + length rest).
+Proof.
+  induction rest as [|line rest IH]; intros i started depth raw var coll found i' raw' v' c' H;
+    cbn [loop_collect] in H.
+  - assert (found = false) by congruence. assert (raw' = raw) by congruence. subst.
+    split; [lia|discriminate].
+  - cbn [length].
+    assert (K : forall st d rw v c,
+               loop_collect start rest (S i) st d rw v c = POk (found, i', raw', v', c') ->
+               length rw <= S (length raw) ->
+               length raw' <= length raw + S (length rest) /\
+               (found = true -> i < i' /\ i' <= i + S (length rest))).
+    { intros st d rw v c E L. apply IH in E. destruct E as [E1 E2]. split; [lia|].
+      intros F. specialize (E2 F). lia. }
+    assert (L1 : length (raw ++ [line]) <= S (length raw)) by (rewrite app_length; simpl; lia).
+    destruct (is_for_line (strip line) && (i =? start)).
+    + destruct (startswith (strip line) "@for ").
+      * destruct (match_for_colon _) as [[v c]|]; [|discriminate]. eapply K; eauto.
+      * destruct (match_for_legacy _) as [[v c]|]; [|discriminate]. eapply K; eauto.
+    + destruct (String.eqb (strip line) "@endfor:"); [discriminate|].
+      destruct (started && is_for_line (strip line)); [eapply K; eauto|].
+      destruct (startswith (strip line) "<<endfor>>" || String.eqb (strip line) "@endfor").
+      * destruct ((depth - 1 =? 0)%Z); [|eapply K; eauto].
+        assert (found = true) by congruence. assert (i' = S i) by congruence.
+        assert (raw' = raw) by congruence. subst. split; [lia|intros; lia].
+      * eapply K; eauto. destruct started; auto.
+Qed.
+
+Lemma loop_body_bounds : forall lines start t n,
+  loop_body lf rec_cond rec_loop lines start = POk (t, n) ->
+  (exists v c ct chs, t = TLoop v c ct chs) /\ 1 <= n /\ n <= length lines - start.
+Proof.
+  intros lines start t n H. unfold loop_body in H.
+  destruct (loop_collect start (skipn start lines) start false 0 [] "" "")
+    as [[[[[found i] raw] var] coll]|d|e|] eqn:E; simpl in H; try discriminate.
+  destruct (body_go lf rec_cond rec_loop (detect_and_strip_indentation raw)
+              (detect_and_strip_indentation raw) 0 0 [] []) as [[ct chs]|d|e|]; simpl in H; try discriminate.
+  destruct found; [|discriminate]. inversion H; subst.
+  apply loop_collect_bounds in E. destruct E as [_ E]. specialize (E eq_refl).
+  rewrite skipn_length in E. split; [eauto|].
+  destruct (le_lt_dec (length lines) start); lia.
+Qed.
+
+End Contracts.
+
+Lemma extract_conditional_block_f_bounds : forall fixed lf n lines start t k,
+  extract_conditional_block_f fixed lf n lines start = POk (t, k) ->
+  (exists brs, t = TCond brs) /\ 1 <= k /\ k <= length lines - start.
+Proof. intros fixed lf [|n] lines start t k H; simpl in H; [discriminate|]. eapply cond_body_bounds; eauto. Qed.
+
+Lemma extract_loop_block_f_bounds : forall fixed lf n lines start t k,
+  extract_loop_block_f fixed lf n lines start = POk (t, k) ->
+  (exists v c ct chs, t = TLoop v c ct chs) /\ 1 <= k /\ k <= length lines - start.
+Proof. intros fixed lf [|n] lines start t k H; simpl in H; [discriminate|]. eapply loop_body_bounds; eauto. Qed.
+
+Lemma join_collect_bounds : forall indent rest block k,
+  snd (join_collect indent rest block k) <= k + length rest.
+Proof.
+  induction rest as [|line rest IH]; intros; simpl; [lia|].
+  destruct (is_join_block_terminator line); simpl; [lia|].
+  destruct (negb (nonempty (strip line))).
+  - specialize (IH (block ++ [line]) (S k)). lia.
+  - destruct (ws_run line <=? indent); simpl; [lia|]. specialize (IH (block ++ [line]) (S k)). lia.
+Qed.
+
+Lemma extract_join_bounds : forall lf lines start indent ct ex k,
+  extract_join_choice_block lf lines start indent = POk (ct, ex, k) -> k <= length lines - start.
+Proof.
+  intros lf lines start indent ct ex k H. unfold extract_join_choice_block in H.
+  pose proof (join_collect_bounds indent (skipn start lines) [] 0) as B. rewrite skipn_length in B.
+  destruct (join_collect indent (skipn start lines) [] 0) as [block k'].
+  destruct block.
+  - inversion H; subst. lia.
+  - destruct (join_parse lf start (detect_and_strip_indentation (s :: block)) 0 [] []) as [[c e]|d|e|];
+      simpl in H; try discriminate. inversion H; subst. cbn [snd] in B. lia.
+Qed.
